@@ -19,7 +19,11 @@ import (
 	"strconv"
 	"strings"
 	"sync"
+	"time"
 )
+
+// how long a passive socket waits for its client, and a connected one for data
+const passiveTimeout = 30 * time.Second
 
 // A data socket is used to send non-control data between the client and
 // server.
@@ -92,6 +96,7 @@ func (socket *ftpActiveSocket) Close() error {
 }
 
 type ftpPassiveSocket struct {
+	listener  net.Listener
 	conn      net.Conn
 	port      int
 	host      string
@@ -140,6 +145,11 @@ func (socket *ftpPassiveSocket) Write(p []byte) (n int, err error) {
 }
 
 func (socket *ftpPassiveSocket) Close() error {
+	// ends a pending Accept as well
+	if socket.listener != nil {
+		socket.listener.Close()
+	}
+	socket.wg.Wait()
 	if socket.conn != nil {
 		return socket.conn.Close()
 	}
@@ -154,11 +164,13 @@ func (socket *ftpPassiveSocket) GoListenAndServe(sessionid string) (err error) {
 	}
 
 	var listener net.Listener
-	listener, err = net.ListenTCP("tcp", laddr)
+	tcpListener, err := net.ListenTCP("tcp", laddr)
 	if err != nil {
 		log.Debug(sessionid, err.Error())
 		return
 	}
+	tcpListener.SetDeadline(time.Now().Add(passiveTimeout))
+	listener = tcpListener
 
 	add := listener.Addr()
 	parts := strings.Split(add.String(), ":")
@@ -175,13 +187,18 @@ func (socket *ftpPassiveSocket) GoListenAndServe(sessionid string) (err error) {
 		listener = tls.NewListener(listener, socket.tlsConfig)
 	}
 
+	socket.listener = listener
+
 	go func() {
+		// one client per passive socket: the listener is not needed any longer
+		defer listener.Close()
+		defer socket.wg.Done()
 		conn, err := listener.Accept()
-		socket.wg.Done()
 		if err != nil {
 			socket.err = err
 			return
 		}
+		conn.SetDeadline(time.Now().Add(passiveTimeout))
 		socket.err = nil
 		socket.conn = conn
 	}()
